@@ -25,7 +25,7 @@ def BIOMOL():
                pdblist=Items())
 
 
-ROW = DictOf(("res_name", Named("row_res", Str)), ("res_num", Named("row_num", Int)), ("chain_id", Named("row_ch", Str)),
+ROW = DictOf(("res_name", Named("row_res", Str)), ("res_num", Named("row_num", Int)), ("ins_code", Const(" ")), ("chain_id", Named("row_ch", Str)),
              ("pKa", Named("row_pka", Real)), ("group_label", Named("row_label", Str)))
 
 TRACE = {
@@ -343,7 +343,7 @@ contract(
 # Terminal groups are labelled by GROUP ("N+    1 A", "C-   99 B") and carry their residue's name; apply_pka_values looks
 # them up by exactly that label (proved in titration.py) - so they have to arrive under it (contract .termini below).
 def PROW(res, num, ch, pka, label):
-    return DictOf(("res_name", Const(res)), ("res_num", Const(num)), ("chain_id", Const(ch)), ("pKa", Const(pka)),
+    return DictOf(("res_name", Const(res)), ("res_num", Const(num)), ("ins_code", Const(" ")), ("chain_id", Const(ch)), ("pKa", Const(pka)),
                   ("group_label", Const(label)))
 
 
@@ -386,6 +386,49 @@ contract(
     raises={"ValueError": "True"},
     trace=PKA_TRACE,
     name="non_trivial.pka_rows.termini",
+    native=False,
+    budget=5000,
+)
+
+
+# ------------------------------------------------------------------------------------- the seam, end to end
+# The dictionary non_trivial builds is consumed by the REAL apply_pka_values here (not mocked): two aspartates that differ
+# only in their insertion code, and their PROPKA rows.  Each is protonated exactly when the pH is below ITS pKa.
+def stub_apply_patch(self, patchname, residue):
+    residue.patches.append(patchname)
+
+
+def ASPRES(nm, ins):
+    return Named(nm, Obj("pdb2pqr.aa:ASP", name=Const("ASP"), res_seq=Const(12), chain_id=Const("A"), ins_code=Const(ins),
+                         is_n_term=Const(0), is_c_term=Const(0), patches=Items(), charge=Const(0)))
+
+
+def PROWI(res, num, ins, ch, pka, label):
+    return DictOf(("res_name", Const(res)), ("res_num", Const(num)), ("ins_code", Const(ins)), ("chain_id", Const(ch)),
+                  ("pKa", pka), ("group_label", Const(label)))
+
+
+SEAM_TRACE = dict(TRACE)
+del SEAM_TRACE["pdb2pqr.biomolecule:Biomolecule.apply_pka_values"]
+SEAM_TRACE["pdb2pqr.main:run_propka"] = TupleOf(Items(PROWI("ASP", 12, " ", "A", Ref("pk_a"), "ASP  12 A"),
+                                                      PROWI("ASP", 12, "B", "A", Ref("pk_b"), "ASP  12BA")), Str)
+
+contract(
+    "pdb2pqr.main:non_trivial", ["C06"],
+    params={"args": ARGS(assign_only=Const(False), pka_method=Const("propka"), ff=Const("parse")),
+            "biomolecule": Obj("pdb2pqr.biomolecule:Biomolecule", residues=Items(ASPRES("asp_a", ""), ASPRES("asp_b", "B")),
+                               num_missing_heavy=Int, pdblist=Items()),
+            "ligand": Const(None), "definition": Obj("Definition", pkas=Items(Named("pk_a", Real), Named("pk_b", Real))),
+            "is_cif": Const(False)},
+    requires=[],
+    ensures=[
+        "iff('ASH' in asp_a.patches, args.ph < pk_a)",
+        "iff('ASH' in asp_b.patches, args.ph < pk_b)",
+    ],
+    raises={"ValueError": "True"},
+    trace=dict(SEAM_TRACE, **{"pdb2pqr.forcefield:Forcefield": Obj("pdb2pqr.forcefield:Forcefield", name=Const("parse"))}),
+    stubs={"pdb2pqr.biomolecule:Biomolecule.apply_patch": "stub_apply_patch"},
+    name="non_trivial.pka_seam.insertion_codes",
     native=False,
     budget=5000,
 )
